@@ -22,6 +22,8 @@ type caseResult struct {
 	validated bool
 	abandoned string
 	faults    int
+	contended int // stimuli after which both loops reached for storeLock
+	lockWaits int // stimuli that left a loop waiting for storeLock
 	ops       map[string]int
 }
 
@@ -100,6 +102,22 @@ func runCase(t *testing.T, model *hx.Model, cfg config, next func(s *sut, v *vie
 			if len(w) == 0 {
 				continue
 			}
+			switch op { // symbolic operations used by the exhaustive enumeration
+			case "finnext":
+				op = ""
+				for i, tk := range v.tickets {
+					if !tk.done {
+						op = fmt.Sprintf("fin %d", i)
+						break
+					}
+				}
+			case "tickd":
+				op = fmt.Sprintf("tick %d", nextDeadline(summary, cfg.minInt))
+			}
+			w = strings.Fields(op)
+			if len(w) == 0 {
+				continue
+			}
 			if w[0] == "tick" && field(summary, "mutexwait") == "1" {
 				continue // the clock cannot advance while a goroutine waits for storeLock
 			}
@@ -163,6 +181,7 @@ func runCase(t *testing.T, model *hx.Model, cfg config, next func(s *sut, v *vie
 			}
 			if strings.Contains(strings.SplitN(rep, " | ", 2)[0], "contended") {
 				// both loops reached for storeLock: see who got it
+				res.contended++
 				winner := ""
 				spinUntil(func() bool {
 					for _, tag := range []string{"p", "r"} {
@@ -204,6 +223,9 @@ func runCase(t *testing.T, model *hx.Model, cfg config, next func(s *sut, v *vie
 				break
 			}
 			summary = parts[2]
+			if field(summary, "mutexwait") == "1" {
+				res.lockWaits++
+			}
 			ep, er := splitEvents(parts[1])
 			reached := spinUntil(func() bool {
 				return len(s.eventsOf(pos, "p")) >= len(ep) && len(s.eventsOf(pos, "r")) >= len(er)
@@ -233,4 +255,22 @@ func runCase(t *testing.T, model *hx.Model, cfg config, next func(s *sut, v *vie
 		s.mu.Unlock()
 	})
 	return res
+}
+
+// nextDeadline is the distance to the nearest pending timer of the model state (def when none).
+func nextDeadline(summary string, def int) int {
+	now, _ := strconv.Atoi(field(summary, "now"))
+	best := 0
+	for _, k := range []string{"p", "r"} {
+		if f := field(summary, k); strings.Contains(f, "@") {
+			d, _ := strconv.Atoi(f[strings.Index(f, "@")+1:])
+			if d > now && (best == 0 || d-now < best) {
+				best = d - now
+			}
+		}
+	}
+	if best == 0 {
+		return def
+	}
+	return best
 }
